@@ -39,9 +39,19 @@ TRUSTED = ['props/c03.py: term canonicalisation by exact IEEE identities (commut
            'and the sharing of verdicts between ISA builds whose LLVM IR for a wrapper (including referenced globals, callees and named types) is textually identical']
 INC = ['glm/glm.hpp', 'glm/gtc/quaternion.hpp', 'glm/gtc/matrix_inverse.hpp']
 P = Unit('c03pure', includes=INC, defines=['GLM_FORCE_PURE', 'QQ=glm::packed_highp', 'QL=glm::packed_lowp', 'QM=glm::packed_mediump'])
-SPEC = {}      # fname -> dict(cls, pre, dec, tier, opt, weight)
-def add(name, ins, outs, body, cls='ident', pre=None, dec=False, tier='quick', opt=False, weight=1.0):
-    P.add(name, ins, outs, body); SPEC[name] = dict(cls=cls, pre=pre, dec=dec, tier=tier, opt=opt, weight=weight)
+# an aligned vec3 that is the xyz part of an aligned vec4: the 4th SIMD lane (padding) keeps the vec4's w, as after a register-level reinterpretation; the pure build converts component-wise
+P.extra_prelude = '''
+template<typename T, glm::qualifier Q> static inline glm::vec<3,T,Q> xyz_of4(const T* p){
+#if GLM_ARCH & GLM_ARCH_SSE2_BIT
+  glm::vec<3,T,Q> v; v.data = ldv<4,T,Q>(p).data; return v;
+#else
+  return glm::vec<3,T,Q>(ldv<4,T,Q>(p));
+#endif
+}
+'''
+SPEC = {}      # fname -> dict(cls, pre, dec, tier, opt, weight, pad)
+def add(name, ins, outs, body, cls='ident', pre=None, dec=False, tier='quick', opt=False, weight=1.0, pad=()):
+    P.add(name, ins, outs, body); SPEC[name] = dict(cls=cls, pre=pre, dec=dec, tier=tier, opt=opt, weight=weight, pad=tuple(pad))
 
 def nonan(*arrs): return lambda i: [z3.Not(is_nan(x)) for k in arrs for x in i[k]]
 def fin(*arrs): return lambda i: [finite(x) for k in arrs for x in i[k]]
@@ -93,6 +103,18 @@ def vec_ops(L, Q, sfx, tier):
     add('conv%d' % L, [('float', L), ('int32_t', L)], [('int32_t', L), ('float', L)], 'stv(o, glm::vec<%d,int,%s>(ldv<%d,float,%s>(a))); stv(o2, glm::vec<%d,float,%s>(ldv<%d,int32_t,%s>(b)));' % (L, Q, L, Q, L, Q, L, Q),
         pre=lambda i: [z3.And(z3.Not(is_nan(x)), z3.fpLT(z3.fpAbs(fpof(x)), FPV(2.0 ** 31))) for x in i[0]])
 for L in (3, 4): vec_ops(L, 'QQ', '', 'quick')
+# ---- padding lane: aligned vec3 operands whose 4th SIMD lane is an arbitrary input value (incl. inf / NaN); no operation on a vec3 may depend on it
+X = 'xyz_of4<float,QQ>'; F4 = ('float', 4)
+add('pdot3_f', [F4, F4], [('float', 1)], 'o[0] = glm::dot(%s(a), %s(b));' % (X, X), cls='real', pad=(0, 1))
+add('plen3_f', [F4, F4], [('float', 2)], 'o[0] = glm::length(%s(a)); o[1] = glm::distance(%s(a), %s(b));' % (X, X, X), cls='real', pad=(0, 1))
+add('pnorm3_f', [F4], [('float', 3)], 'stv(o, glm::normalize(%s(a)));' % X, cls='real', pad=(0,))
+add('pcross3_f', [F4, F4], [('float', 3)], 'stv(o, glm::cross(%s(a), %s(b)));' % (X, X), cls='real', pad=(0, 1))
+add('prefl3_f', [F4, F4], [('float', 3)], 'stv(o, glm::reflect(%s(a), %s(b)));' % (X, X), cls='real', pad=(0, 1))
+add('prefr3_f', [F4, F4, ('float', 1)], [('float', 3)], 'stv(o, glm::refract(%s(a), %s(b), c[0]));' % (X, X), cls='real', dec=True, pad=(0, 1))
+add('pface3_f', [F4, F4, F4], [('float', 3)], 'stv(o, glm::faceforward(%s(a), %s(b), %s(c)));' % (X, X, X), cls='real', dec=True, pad=(0, 1, 2))
+add('padd3_f', [F4, F4], [('float', 3)] * 4, 'stv(o, %s(a) + %s(b)); stv(o2, %s(a) - %s(b)); stv(o3, %s(a) * %s(b)); stv(o4, %s(a) / %s(b));' % ((X,) * 8), pad=(0, 1))
+add('pcmp3_f', [F4, F4], [('bool', 2)], 'o[0] = (%s(a) == %s(b)); o[1] = (%s(a) != %s(b));' % ((X,) * 4), pad=(0, 1))
+add('pmvec3', [('float', 9), F4], [('float', 3)] * 2, 'stv(o, ldm<3,3,float,QQ>(a) * %s(b)); stv(o2, %s(b) * ldm<3,3,float,QQ>(a));' % (X, X), cls='real', pad=(1,))
 add('cross_f', [('float', 3), ('float', 3)], [('float', 3)], 'stv(o, glm::cross(ldv<3,float,QQ>(a), ldv<3,float,QQ>(b)));', cls='real')
 add('swz4_f', [('float', 4)], [('float', 4)] * 3, 'glm::vec<4,float,QQ> v = ldv<4,float,QQ>(a); stv(o, glm::vec<4,float,QQ>(v.w, v.z, v.y, v.x)); stv(o2, glm::vec<4,float,QQ>(glm::vec<3,float,QQ>(v), 1.0f)); stv(o3, glm::vec<4,float,QQ>(v.x));')
 add('bitsd4', [('uint64_t', 4), ('uint64_t', 4)], [('uint64_t', 4)] * 4, 'typedef glm::vec<4,glm::uint64,QQ> V; V x = ldv<4,glm::uint64,QQ>((const glm::uint64*)a), y = ldv<4,glm::uint64,QQ>((const glm::uint64*)b); '
@@ -492,7 +514,7 @@ def known_for(isa, fn):
     if fn.startswith('abs4_f'): k.append('KF-C03-abs-negative-zero')
     if fn.startswith('round4_f'): k.append('KF-C03-round-ties')
     if re.match(r'(round|floor|ceil|fract|mod)4_f', fn): k.append('KF-C03-sse2-rounding-fallback')
-    if re.match(r'(face|refr)3_f', fn): k.append('KF-C03-sse2-vec3-dot-association')
+    if re.match(r'p?(face|refr)3_f', fn): k.append('KF-C03-sse2-vec3-dot-association')
     return k
 def _round_tie(res, i):
     xf = fpof(res.ins[0][i])
@@ -503,13 +525,13 @@ def _sse2_region(res, i):
     return z3.Or(z3.fpGEQ(z3.fpAbs(xf), FPV(2.0 ** 23)), z3.And(z3.fpLEQ(xf, FPV(0.0)), z3.fpGT(xf, FPV(-1.0))), z3.fpIsNaN(xf))
 def _dots3(x, y):
     """the three-term dot product as the generic code adds it, (p0 + p1) + p2, and as the SSE2 branch of glm_vec1_dot on (x, y, z, 0) does, (p0 + p2) + (p1 + 0*0)"""
-    p = [canon(z3.fpMul(RNE, fpof(a_), fpof(b_))) for a_, b_ in zip(x, y)]
+    p = [canon(z3.fpMul(RNE, fpof(a_), fpof(b_))) for a_, b_ in zip(x[:3], y[:3])]
     def ad(u, v): return canon(z3.fpAdd(RNE, u, v))
     return ad(ad(p[0], p[1]), p[2]), ad(ad(p[0], p[2]), ad(p[1], FPV(0.0)))
 def _dot3_assoc(res, i):
     """inputs on which the two summation orders lead to a different decision"""
     I = res.ins
-    if res.fn.name.startswith('face'):
+    if 'face' in res.fn.name:
         d1, d2 = _dots3(I[2], I[1]); return canon(z3.simplify(z3.fpLT(d1, FPV(0.0)))) != canon(z3.simplify(z3.fpLT(d2, FPV(0.0))))
     d1, d2 = _dots3(I[1], I[0]); eta = fpof(I[2][0]); one = FPV(1.0)
     def k(d): return z3.fpSub(RNE, one, z3.fpMul(RNE, z3.fpMul(RNE, eta, eta), z3.fpSub(RNE, one, z3.fpMul(RNE, d, d))))
@@ -613,7 +635,9 @@ class Pair:
         """is the known defect still there?  the recorded witness is replayed natively first (it must lie in the region and make the two builds differ); the solver searches the region otherwise"""
         S = s.S; rp = s.replayer(oi, i)
         for kid, kf, reg in regs:
-            wit = (kf.get('witness') or {}).get(re.sub(r'_(lp|mp)$', '', s.fn))
+            base = re.sub(r'_(lp|mp)$', '', s.fn); W = kf.get('witness') or {}; wit = W.get(base)
+            if not wit and s.sp['pad'] and W.get(base[1:]):       # padded variant of a recorded vec3 witness: padding lane 0
+                wit = [list(row) + ['0x0'] * (n - len(row)) for row, (c_, n) in zip(W[base[1:]], s.fa.ins)]
             if wit:
                 vals = [[int(v, 16) for v in row] for row in wit]
                 sub = [(t, bv(v, t.size())) for terms, row in zip(s.ins, vals) for t, v in zip(terms, row)]
@@ -682,6 +706,7 @@ def check_pair(S, ua, ub, fn, tag, isas):
         conds = [c for k, c, d in pr.ubB]
         S.prove(pr.nm + '.simd-no-ub', z3.Not(z3.Or(*conds)) if len(conds) > 1 else z3.Not(conds[0]), pr.hyps, timeout=S.cap(30, 90), solver='portfolio' if fn.startswith('idiv') else 'z3', kind='ub', functions=pr.fnlist,
                 bounds=pr.binfo + ' [no undefined behaviour in the SIMD build on the inputs on which the pure build has none: %s]' % ', '.join(sorted({d for k, c, d in pr.ubB}))[:200], replay=None, vars_=pr.allvars, mandatory=mand)
+    if sp['pad']: check_padding(S, pr)
     rest = []
     for el in pr.elems:
         oi, i, c, on, a, b = el; x, y = pr.terms(c, a, b)
@@ -752,6 +777,30 @@ def check_pair(S, ua, ub, fn, tag, isas):
             S.rec(name=pr.nm + '.no-approx', kind='structure', functions=pr.fnlist, bounds=pr.binfo, solver='term DAG inspection', result='unsat', time_s=0.0, status='discharged', mandatory=mand,
                   note='no rcp/rsqrt approximation intrinsic reachable from the results')
     if sp['dec']: check_decisions(S, pr, rest)
+
+def check_padding(S, pr):
+    """no result of an operation on aligned vec3 operands depends on the 4th SIMD lane of an operand (it is arbitrary: the w of the vec4 the vec3 was cut from, possibly inf / NaN).  Bit-precise:
+    the simplified SIMD result does not mention the lane-3 inputs at all, or it equals itself with those inputs set to +0 (for every lane-3 value; both-NaN counts as equal).  A counterexample
+    is replayed natively: the SIMD build on the model inputs against the SIMD build on the same inputs with the padding lanes zeroed."""
+    lanes = [pr.ins[k][3] for k in pr.sp['pad']]; lid = {v.get_id() for v in lanes}; zero = [(v, bv(0, v.size())) for v in lanes]
+    def replayer(oi, i):
+        def replay(m):
+            vals = S._model_inputs(m, pr.ra); v0 = [list(r) for r in vals]
+            for k in pr.sp['pad']: v0[k][3] = 0
+            info = {'unit': pr.ub.name, 'unit_b': pr.ub.name, 'fn': pr.fn, 'inputs': [[hex(v) for v in r] for r in vals], 'inputs_padding_zeroed': [[hex(v) for v in r] for r in v0], 'obligation': pr.nm, 'property': S.pid, 'pin_name': pr.nm}
+            if not cpu_has(pr.isas[0]): return 'not-replayable(cpu lacks %s)' % pr.isas[0], info
+            try: n1 = pr.ub.call_native(pr.fn, vals); n0 = pr.ub.call_native(pr.fn, v0)
+            except RuntimeError: n1 = pr.ub.call_native(pr.fn, vals, cxx='clang++-14'); n0 = pr.ub.call_native(pr.fn, v0, cxx='clang++-14'); info['native_compiler'] = 'clang++-14'
+            info['native_' + pr.tag] = [[hex(v) for v in r] for r in n1]; info['native_%s_padding_zeroed' % pr.tag] = [[hex(v) for v in r] for r in n0]
+            return ('reproduced' if _native_differs(pr.fa.outs[oi][0], n1[oi][i], n0[oi][i]) else 'not-reproduced'), info
+        return replay
+    for oi, i, c, on, a, b in pr.elems:
+        y = pr.terms(c, a, b)[1]; name = vname(on, 'padding')
+        b2 = pr.binfo + ' [padding independence of the SIMD build: lane 3 of the vec3 operands unconstrained (any bit pattern)]'
+        if not (lid & set(subterms(y))):
+            S.rec(name=name, kind='padding', functions=pr.fnlist, bounds=b2, solver='free-variable check on the simplified term (the lane-3 inputs do not occur)', result='unsat', time_s=0.0, status='discharged', mandatory=True); continue
+        y0 = canon(z3.simplify(z3.substitute(y, *zero)))
+        pr.decide(name, y == y0, pr.hyps, 'padding', b2, replayer(oi, i), S.cap(60, 180), True, 'z3', (y, y0), False)
 
 def check_decisions(S, pr, rest):
     """the IEEE comparison atoms the SIMD result depends on must each be equivalent (bit-precisely) to one the pure result depends on"""
@@ -827,7 +876,7 @@ def job_tasks(tasks):
 
 def table(tier):
     return [f for f in P.fns if tier != 'quick' or SPEC[f]['tier'] == 'quick']
-WEIGHT = {'face3_f': 2.5, 'refr3_f': 1.5, 'mod4_f': 3, 'fract4_f': 3, 'floor4_f': 2.5, 'ceil4_f': 2.5, 'k_roundEven': 2, 'face4_f': 1, 'round4_f': 1.5, 'minv4': 1, 'mops4': 1, 'mmul4': 1}
+WEIGHT = {'face3_f': 2.5, 'refr3_f': 1.5, 'pface3_f': 2.5, 'prefr3_f': 1.5, 'mod4_f': 3, 'fract4_f': 3, 'floor4_f': 2.5, 'ceil4_f': 2.5, 'k_roundEven': 2, 'face4_f': 1, 'round4_f': 1.5, 'minv4': 1, 'mops4': 1, 'mmul4': 1}
 def jobs(tier):
     """one task = one wrapper x one group of ISA builds with identical IR; tasks are packed into jobs of similar estimated cost"""
     prebuild_native(units(tier))
